@@ -141,7 +141,8 @@ V_ALL = [H(n, "spect", mem=8, timeout=900, unwindset={"SpectatorSession": 9, "dr
          for n in names_in("sessions__p2p_spectator_session.rs", "v_advance_.*") if n != "v_advance_r21_behind7_catchup9"] + \
         [H("v_input_event_step", "spect", mem=8, timeout=900),
          H("v_advance_r21_behind7_catchup9", "spect", tier="thorough", mem=24, timeout=2400, unwindset={"SpectatorSession": 9, "drop_glue": 2})]
-T_UNIT = [H("t_checksum_comparison", "synct", mem=8, timeout=900, unwindset={"extend_with": 9})]
+T_UNIT = [H("t_checksum_comparison", "synct", mem=8, timeout=900, unwindset={"extend_with": 9}),
+          H("t_checksum_comparison_cd2", "synct", mem=8, timeout=900, unwindset={"extend_with": 9})]
 U_NORESUME = [U("u_no_resume_after_disconnect")]
 
 PE_CUTOFF = [H("pe_cutoff_agreement_gossip_not_earlier", "sess_ep", timeout=900, mem=12, unwindset={"extend_with": 9}),
